@@ -125,7 +125,7 @@ def lin_suite(name, impl, quick, thorough, extra=None):
         "eval": "Definition M := Eval vm_compute in lin_violations cfg_%s cases 0.\nPrint M.\n"
                 "Definition V := Eval vm_compute in M.\nPrint V." % impl,
         "diag": "Eval vm_compute in (nth_error cases {k}).",
-        "sig": "false", "timeout": 1500,
+        "sig": "false", "timeout": 1500, "race": True,
         "quick": quick, "thorough": thorough,
     }
 
@@ -218,6 +218,7 @@ SUITES = {
     ]},
     "C18": {"suites": [
         mut_suite("c18-mut", {"n": 400, "shards": 8}, {"n": 3000, "shards": 16}),
+        cron_suite("c18-cron", "c15", "false true", "false true", {"n": 10, "shards": 6}, {"n": 80, "shards": 16}),
     ], "rule": "metadata maps over a pool of duration strings (empty, garbage, ints, durations, negative, zero, equal, swapped, extreme), original times, PRNG / all-zero random source, executed under recover; distinct = distinct sha1 of the printed case (all are non-trivial: each has its own metadata/oracle)"},
     "C12": {"suites": [
         repo_suite("c12-inmem", "inmem", "c01", "p_C12", {"n": 25, "shards": 7}, {"n": 200, "shards": 16}),
